@@ -1,6 +1,6 @@
 (* C03 - Generated dependency graph equals the graph the build script describes. *)
 From BFG Require Import Base.Chars Graph.Defaults Graph.DefaultsProofs Make.MakeSem Graph.Steps Graph.Emit
-  Graph.EmitProofs Graph.EmitSem.
+  Graph.EmitProofs Graph.EmitSem Graph.StampSem.
 Local Open Scope N_scope.
 
 (* the default target depends on the explicitly declared outputs if any, otherwise on every registered
@@ -159,3 +159,52 @@ Proof.
   repeat split; try (repeat constructor; cbn; intuition discriminate).
   all: cbn; intros p H; intuition (subst; discriminate).
 Qed.
+
+(* ====================================================================== the stamp encoding of multi-output steps *)
+
+(* the stamp stands in for the outputs in Make's out-of-date test: while the outputs carry the stamp's time (the recipe
+   writes them and then touches the stamp; modifications of inputs keep this), the recipe runs exactly when an ideal
+   k-output rule (the recipe runs when any output is out of date w.r.t. the declared prerequisites) would run it *)
+Theorem C03_stamp_equiv : forall all s outs stamp deps ord,
+  outs <> [] -> (forall o, In o outs -> b_fs s o = b_fs s stamp) ->
+  need all s (stamp_rule stamp deps ord) = existsb (fun o => need all s (ideal_rule o deps ord)) outs.
+Proof. exact stamp_equiv. Qed.
+Print Assumptions C03_stamp_equiv.
+
+(* documented limitation: deleting one output while the stamp stays - the ideal rule re-runs, the encoding does not *)
+Theorem C03_stamp_delete_refuted :
+  exists all s outs stamp deps ord,
+    outs <> [] /\ b_fail s = None /\
+    need all s (stamp_rule stamp deps ord) = false /\
+    existsb (fun o => need all s (ideal_rule o deps ord)) outs = true.
+Proof. exact stamp_delete_refuted. Qed.
+Print Assumptions C03_stamp_delete_refuted.
+
+(* NOT equivalent for the consumers of the outputs (finding C03-make-stamp-consumer-stale): under GNU Make's depth-first
+   walk with cached mtimes (StampSem.dmake, validated against GNU Make 4.3) the rule  outs: stamp  has no recipe, so an
+   output Make looked at before the stamp's recipe ran keeps its old time: after touching the input of a 2-output
+   build_step, the consumer of the output met first is not rebuilt (the other one is), and the NEXT make - nothing
+   touched - rebuilds it.  Rebuild exactness and build-after-build-does-nothing both fail; hence the guard of
+   C03_rebuild_exact. *)
+Theorem C03_stamp_consumers_refuted :
+  let b1 := dmake ex_stamp_rules [20; 21] (fs_of [(1, 5)]) 10 in
+  let b2 := dmake ex_stamp_rules [20; 21] (d_fs b1) (d_clk b1) in
+  let touched := upd (d_fs b1) 1 (d_clk b1) in
+  let b3 := dmake ex_stamp_rules [20; 21] touched (d_clk b1 + 1) in
+  let b4 := dmake ex_stamp_rules [20; 21] (d_fs b3) (d_clk b3) in
+  d_log b1 = [12; 20; 21] /\ d_log b2 = [] /\
+  d_log b3 = [12; 21] /\ d_log b4 = [20] /\
+  d_fail b1 = false /\ d_fail b3 = false /\ d_fail b4 = false.
+Proof. exact stamp_consumers_refuted. Qed.
+Print Assumptions C03_stamp_consumers_refuted.
+
+(* the example rules are what the Make emitter produces for that script (nodes 10 11 = outputs, 12 = the stamp) *)
+Example ex_stamp_is_emitted :
+  emit_make_step (mkStep KBuildStep [mkOut 10 0; mkOut 11 0] None None None [] [] [] [1] [] [] [] false false) =
+    Some [mkM [NF 10; NF 11] [NStamp 10] [] false false; mkM [NStamp 10] [NF 1] [] true false].
+Proof. reflexivity. Qed.
+
+Example ex_stamp_equiv_nonvacuous :
+  let s := init (fs_of [(1, 9); (10, 7); (11, 7); (12, 7)]) 10 in
+  (forall o, In o [10; 11] -> b_fs s o = b_fs s 12) /\ need [] s (stamp_rule 12 [1] []) = true.
+Proof. split; [intros o [<-|[<-|[]]]; reflexivity|reflexivity]. Qed.
